@@ -93,7 +93,7 @@ theorem timeout_surfaces (configCpus cpus : Nat) (f : α → Except ε β) (args
     (Or.inl ⟨rfl, rfl, rfl⟩)
 
 /-- a worker process found dead while work is outstanding surfaces as an error, with or without
-    a deadline (the repaired `_await_pool_results`; the unrepaired code blocks here, defect D25) -/
+    a deadline (the repaired `_await_pool_results`; the unrepaired code blocks here, defect D44) -/
 theorem worker_death_surfaces (configCpus cpus : Nat) (f : α → Except ε β) (args : List α)
     (hasTimeout : Bool) (pre post : List Event) (w : Nat)
     (hk : 2 ≤ resolveCpus configCpus cpus)
